@@ -25,7 +25,7 @@ def run(rep):
     lr.rule_tags(rep, "C04.tags")
     br.rule_locations(rep, "C04.items")
     er.rule_error_locations(rep, "C04.err")
-    dr.rule_header(rep, "C04.langerr")
+    dr.rule_header(rep, "C04.langerr", snapshot=True)
     br.rule_rect(rep, "C04.raggederr")
     # no hidden state: what the property promises for one use must hold for every later use as well
     ms.rule_stateless(rep, "C04")
